@@ -538,12 +538,12 @@ class SimulationBuilder:
             self.init_variable_values(entity, variables_json, instance_id)
 
         if persons_to_allocate:
-            entity_ids = entity_ids + list(persons_to_allocate)
-            for person_id in persons_to_allocate:
+            first_new_index = len(entity_ids)
+            new_ids = list(persons_to_allocate)
+            entity_ids = entity_ids + new_ids
+            for new_index, person_id in enumerate(new_ids, start=first_new_index):
                 person_index = persons_ids.index(person_id)
-                self.memberships[entity.plural][person_index] = entity_ids.index(
-                    person_id,
-                )
+                self.memberships[entity.plural][person_index] = new_index
                 self.roles[entity.plural][person_index] = entity.flattened_roles[0]
             # Adjust previously computed ids and counts
             self.entity_ids[entity.plural] = entity_ids
